@@ -427,7 +427,21 @@ func (p *Packer) Unpack(r io.Reader, dst string) error {
 
 		// Handle symlinks, directories, non-regular files
 		if info.IsSymlink() {
-			if ok, err := p.validSymlink(dst, info.Path, header.Linkname); ok {
+			ok, err := p.validSymlink(dst, info.Path, header.Linkname)
+			if ok && filepath.IsAbs(header.Linkname) {
+				// An absolute target that happens to lie inside dst is still
+				// not a link into the slug: only the allow list admits it.
+				absDst, aerr := filepath.Abs(dst)
+				if aerr != nil || !p.symlinkTargetAllowed(absDst, filepath.Clean(header.Linkname)) {
+					ok, err = false, &IllegalSlugError{
+						Err: fmt.Errorf(
+							"invalid symlink (%q -> %q) has external target",
+							header.Name, header.Linkname,
+						),
+					}
+				}
+			}
+			if ok {
 				// Create the symlink.
 				if err = os.Symlink(header.Linkname, info.Path); err != nil {
 					return fmt.Errorf("failed creating symlink (%q -> %q): %w",
@@ -530,24 +544,8 @@ func (p *Packer) validSymlink(root, path, target string) (bool, error) {
 	}
 
 	// The link target is outside of root. Check if it is allowed.
-	for _, prefix := range p.allowSymlinkTargets {
-		// Ensure prefix is absolute.
-		if !filepath.IsAbs(prefix) {
-			prefix = filepath.Join(absRoot, prefix)
-		}
-
-		// Exact match is allowed.
-		if absTarget == prefix {
-			return true, nil
-		}
-
-		// Prefix match of a directory is allowed.
-		if !strings.HasSuffix(prefix, "/") {
-			prefix += "/"
-		}
-		if strings.HasPrefix(absTarget, prefix) {
-			return true, nil
-		}
+	if p.symlinkTargetAllowed(absRoot, absTarget) {
+		return true, nil
 	}
 
 	return false, &IllegalSlugError{
@@ -556,6 +554,31 @@ func (p *Packer) validSymlink(root, path, target string) (bool, error) {
 			path, target,
 		),
 	}
+}
+
+// symlinkTargetAllowed checks absTarget against the AllowSymlinkTarget list.
+func (p *Packer) symlinkTargetAllowed(absRoot, absTarget string) bool {
+	for _, prefix := range p.allowSymlinkTargets {
+		// Ensure prefix is absolute.
+		if !filepath.IsAbs(prefix) {
+			prefix = filepath.Join(absRoot, prefix)
+		}
+
+		// Exact match is allowed.
+		if absTarget == prefix {
+			return true
+		}
+
+		// Prefix match of a directory is allowed.
+		if !strings.HasSuffix(prefix, "/") {
+			prefix += "/"
+		}
+		if strings.HasPrefix(absTarget, prefix) {
+			return true
+		}
+	}
+
+	return false
 }
 
 // checkFileMode is used to examine an os.FileMode and determine if it should
